@@ -28,9 +28,15 @@ type peekEntry struct {
 	hit  bool
 }
 
+type peekRecord struct {
+	src gostatsd.Source
+	ans peekEntry
+}
+
 type stubCache struct {
-	mu    sync.Mutex
-	table map[gostatsd.Source]peekEntry
+	mu      sync.Mutex
+	peekLog []peekRecord // every Peek and what it answered, in call order
+	table   map[gostatsd.Source]peekEntry
 	sink  chan gostatsd.Source
 	info  chan gostatsd.InstanceInfo
 	peeks int
@@ -41,6 +47,7 @@ func (c *stubCache) Peek(s gostatsd.Source) (*gostatsd.Instance, bool) {
 	defer c.mu.Unlock()
 	c.peeks++
 	p := c.table[s]
+	c.peekLog = append(c.peekLog, peekRecord{s, p})
 	return p.inst, p.hit
 }
 func (c *stubCache) IpSink() chan<- gostatsd.Source             { return c.sink }
